@@ -100,8 +100,13 @@ def handle_map(m, key):
     return h
 
 
+# dead-letter reasons with white space around a non-blank core (scenario S17): stored and returned verbatim by every backend
+EXTRA_REASONS = ["\tmax_retries ", "upstream reset\r\n", " boom"]
+
+
 def reason_n(s):
-    return REASONS.index(s) if s in REASONS else 777777
+    allr = REASONS + EXTRA_REASONS
+    return allr.index(s) if s in allr else 777777
 
 
 def row_tuple(mp, r):
